@@ -114,8 +114,9 @@ CHECKS["C01"] = {
     "assumptions": ["the CID passed with an envelope is the content hash of that envelope (as MessageStore guarantees)"],
     "units": [
         {"pkg": _SS, "run": "^TestVerif_C01_", Q: {"timeout": 600}, T: {"timeout": 3400, "shards": 12}},
+        {"pkg": ".", "run": "^TestVerif_C01_", "shrinktime": "10s", Q: {"timeout": 900}, T: {"timeout": 3400, "shards": 8}},
     ],
-    "mandatory_labels": {"all": ["kind/account", "kind/contact", "kind/multimember", "payload>=4KiB", "payload-empty", "mutants-decrypting-to-signature-check", "concurrent-seal/overlapping", "write-fault/fired", "read-fault/fired"]},
+    "mandatory_labels": {"all": ["kind/account", "kind/contact", "kind/multimember", "payload>=4KiB", "payload-empty", "mutants-decrypting-to-signature-check", "concurrent-seal/overlapping", "write-fault/fired", "read-fault/fired", "stores"]},
 }
 
 CHECKS["C02"] = {
@@ -442,7 +443,7 @@ for _k, _v in _ADDED5.items():
     if _v:
         CHECKS[_k]["level_text"] += " " + _v
 _ADDED6 = {
-    "C01": "Single transient datastore write or read failures during opens (an honest message refused for good because of one is a violation).",
+    "C01": "Single transient datastore write or read failures during opens (an honest message refused for good because of one is a violation). Message-store layer: a device sends a run of messages through its own message store (reading each back before the next), a member with a key window of 2-5 receives them in order and must be handed all of them with the sender's counters.",
     "C02": "Every third message of a sender has no content at all. `TestVerif_C02_TransientWriteFailure`: one failing write while a message is opened; the next message is opened first, then the failed one again (it is still inside the window).",
     "C03": "Forged entries also arrive by replication from a branch concurrent with the victim's history (a replica that merged nothing, Lamport time 1).",
     "C04": "Controlled schedules (DFS + rapid) of overlapping index passes of the writer's task and the replication task over a log that grows meanwhile (instrumented index; the final state must be the state of the entries held).",
